@@ -241,6 +241,7 @@ fn v1_loop<'a>(
         (re matches Some(Err(_))) && lines_of(content_of(block_with_context.block, file_blocks.file_content@)).len() > 0
             ==> r is Err, // [V1.post.bad_regex_is_err]
         forall|k2: PathBuf| k2 != *file_path && #[trigger] old(violations)@.contains_key(k2) ==> final(violations)@.contains_key(k2) && final(violations)@[k2] == old(violations)@[k2], // [V1.post.other_files_untouched]
+        forall|k2: PathBuf| k2 != *file_path && #[trigger] final(violations)@.contains_key(k2) ==> old(violations)@.contains_key(k2), // [V1.post.no_new_files]
         r is Err ==> final(violations)@ == old(violations)@, // [V1.post.err_leaves_report]
 //@tail
     proof {
@@ -289,6 +290,7 @@ fn v1_loop<'a>(
                 && #[trigger] key_range_ok(v, block_with_context.block, re, content_of(block_with_context.block, file_blocks.file_content@), i)
                 && v.code@ == "keep-sorted"@,
             forall|k2: PathBuf| k2 != *file_path && #[trigger] old(violations)@.contains_key(k2) ==> violations@.contains_key(k2) && violations@[k2] == old(violations)@[k2],
+            forall|k2: PathBuf| k2 != *file_path && #[trigger] violations@.contains_key(k2) ==> old(violations)@.contains_key(k2),
 //@edit rule=ghost before=<<let mut prev_value>>
     let ghost keys = keys_of(re, content_of(block_with_context.block, file_blocks.file_content@));
 //@edit rule=ghost before=<<let value = match &re>> optional=1
